@@ -14,7 +14,9 @@ ID = "C09"
 LEVEL = "exploration"
 RULE = ("each run: a generated conversation (1..6 exchanges quick, 1..20 thorough; run i<117 starts with command "
         "code i) serialised as one stream; tasks: stream decode (counting source), one decode per message, "
-        "events_to_objs; non-trivial = stream events compared with the concatenation of the per-message decodes and "
+        "events_to_objs; bystanders request parameter encryption on arbitrary commands; 5% of the runs decode the messages of a "
+        "stream kept from much earlier in the same worker process one by one and compare with the kept stream events; "
+        "non-trivial = stream events compared with the concatenation of the per-message decodes and "
         "objects compared pairwise; distinct = distinct stream bytes")
 REAL = common.REAL_DECODER + ["tpmstream.common.object (separate_events, events_to_objs, events_to_obj)"]
 ASSUMPTIONS = ["command code and response-encryption flag of each response come from the generator's value tree"]
@@ -47,8 +49,33 @@ def make_case(i, rng, tier):
         m = metas[j]
         msgs.append({"kind": m["kind"], "cc": m["cc"], "enc": m["enc"], "start": a, "end": b})
         tasks.append(common.spec("m%d" % j, "Command" if m["kind"] == "command" else "Response", data[a:b], m["cc"], m["enc"], strict=True))
+    tasks += common.enc_sweep_specs(rng, g, rng.choice((0, 0, 1, 2)))
     tasks, sched = common.perturb(rng, tasks, p_by=0.2)
-    return {"input": {"label": "stream:%d" % len(trees), "msgs": msgs}, "tasks": tasks, "schedule": sched}
+    return {"input": {"label": "stream:%d" % len(trees), "msgs": msgs, "later": rng.randrange(64) if rng.random() < 0.05 else None},
+            "tasks": tasks, "schedule": sched}
+
+
+# a stream decoded now, its messages decoded one by one much later in the life of the process
+_KEPT = []
+
+
+def recheck_later(res, k):
+    from ..world import Task
+    label, sev, msgs, data = _KEPT[k % len(_KEPT)]
+    res.count("hist:stream-rechecked-later")
+    cat = []
+    for j, m in enumerate(msgs):
+        t = Task(dict(id="later%d" % j, type="Command" if m["kind"] == "command" else "Response", data=data[2 * m["start"]:2 * m["end"]],
+                      cc=m["cc"], enc=m["enc"], strict=True)).run()
+        if t.exc_sum is not None:
+            return
+        cat += t.events
+    if sev != cat:
+        j = next((n for n, (a, b) in enumerate(zip(sev, cat)) if a != b), min(len(sev), len(cat)))
+        same = j < min(len(sev), len(cat)) and real.ev_item(sev[j]) == real.ev_item(cat[j])
+        res.v("C09.d", "C09.d:later:%s" % ("type-identity" if same else "events"),
+              "%s was decoded as a stream earlier in this process (its events were kept); decoding its messages one by one now gives "
+              "events that differ from them at event %d%s" % (label, j, " (comparable forms equal, declared type objects differ)" if same else ""))
 
 
 def check(case):
@@ -109,6 +136,10 @@ def check(case):
                     label, j, first_pull, msgs[j]["start"]))
                 break
         k += n
+    if case["input"].get("later") is not None and _KEPT:
+        recheck_later(res, case["input"]["later"])
+    if len(_KEPT) < 4 and ts.exc_sum is None and any(m["enc"] or _cmd_enc(p) for m, p in zip(msgs, parts)):
+        _KEPT.append((label, list(ts.events), msgs, ts.spec["data"]))
     res.nontrivial(ts.spec["data"])
     return res
 
